@@ -54,6 +54,19 @@ class K:
 k1 = K("k1")
 k2 = K("k2")
 
+def _wrapped(a, b=2):
+    return None
+
+@functools.wraps(_wrapped)
+def ws(a, b=2):              # a wrapper that declares the wrapped function's own defaults
+    LOG.append("ws")
+    return ("ws", T(a), T(b))
+
+@functools.wraps(_wrapped)
+def wd(a, b=5):              # ... and one whose own default differs from the wrapped function's
+    LOG.append("wd")
+    return ("wd", T(a), T(b))
+
 async def co(a, b=2):
     LOG.append("co")
     return ("co", T(a), T(b))
